@@ -185,6 +185,14 @@ def s4(ctx):
                         elif a[0] in ('ref', 'rawptr'):
                             ss = fam.ref_snapshot(a)
                             slot_ok = ss is not None and fam.is_tok(ss, toks)
+                        else:
+                            # &mut *manually_drop  (DerefMut on a ManuallyDrop<T> slot), possibly behind a pointer cast
+                            x = a
+                            while x[0] == 'cast':
+                                x = x[2]
+                            if x[0] == 'call' and x[2] in ('std::ops::DerefMut::deref_mut', 'std::ops::Deref::deref', 'std::mem::ManuallyDrop::deref_mut') and x[3]:
+                                ss = fam.ref_snapshot(x[3][0])
+                                slot_ok = fam.slot_of(ss, toks)
                     if not slot_ok:
                         ctx.violate(b.key, p, 'registered signal does not point at the slot holding the payload: %s' % fmt(ptr), at=e.at)
 
@@ -270,6 +278,8 @@ def disposals(evs, kind, idx, toks):
             out.append(e)
         elif e.name == 'CALL' and e.data['callee'] in ('std::ptr::drop_in_place', 'std::mem::ManuallyDrop::drop'):
             out.append(e)
+        elif e.name == 'CALL' and e.data['callee'] == 'std::mem::ManuallyDrop::into_inner' and e.data['args'] and fam.slot_of(e.data['args'][-1], toks):
+            pass  # moves the value out again: whoever receives it disposes of it
     return out
 
 
